@@ -276,11 +276,11 @@ def execute(ctx, hist, rng):
                 heard = None
                 if seq != self_seq or inst.local_sv.get(nid(SELF)) != self_seq:
                     R['viol'].append(('publish-seq', f'new_data returned {seq}, expected {self_seq}', w))
-                await asyncio.sleep(0.005)
+                await asyncio.sleep(0.05)
                 em = take_emissions()
                 ctx.event('publication')
                 if len(em) < 1:
-                    R['viol'].append(('publish-not-announced-promptly', 'no sync Interest within 5 ms of new_data()', w))
+                    R['viol'].append(('publish-not-announced-promptly', 'no sync Interest within 50 ms (virtual) of new_data()', w))
                 else:
                     check_emission_content(em[0][1], w)
                 if len(em) > 1:
